@@ -247,6 +247,53 @@ CHECKS["C16"] = dict(
     note="the numbering policy of handles and free slots is not asserted",
     design_ref="DESIGN.md section 2, C16")
 
+CHECKS["C07"] = dict(
+    technique="runtime monitoring: sanitized save/load/re-save histories of "
+              "vnacal_t objects; offline oracle = independent reader of the "
+              "saved text (pylib/vcalfile.py) and comparison of applied "
+              "probe measurements",
+    text="vnacal_t objects with 0..6 calibrations of every type (to 3 ports, "
+         "rectangular included), complex z0, property trees and precisions "
+         "1..40/MAX, built through add / replace-by-name / delete histories, "
+         "are saved, loaded, re-saved and applied; names, order, types, "
+         "dimensions, frequencies, z0, properties and error terms must agree "
+         "to the stated precision, older-version and re-spelt files must load "
+         "to the same content. Executed histories only.",
+    note="trusted: pylib/vcalfile.py (hand-written reader of the documented "
+         "file layout), numpy; z0 is accepted at min(fprecision, dprecision) "
+         "digits because the manual does not say which applies",
+    design_ref="DESIGN.md section 7, C07")
+CHECKS["C10"] = dict(
+    technique="runtime monitoring: sanitized library queried between and at "
+              "grid points; offline oracle = closed-form rational laws and "
+              "twin runs",
+    text="Vector parameters, calibrations of smooth error networks, vector "
+         "standards and noise vectors on their own grids: values at knots "
+         "bit-exact, low-order rational data reproduced between knots within "
+         "the documented interpolation error, results independent of query "
+         "order, and every use outside the covered band (apply, parameter "
+         "query, vector standard, correlated sigma grid, noise grid; both "
+         "call orders) refused. Observed executions only.",
+    note="trusted: numpy; accuracy clauses use smooth laws where any sound "
+         "interpolator is accurate, so only gross interpolation defects are "
+         "visible between knots",
+    design_ref="DESIGN.md section 7, C10")
+CHECKS["C19"] = dict(
+    technique="runtime monitoring: sanitized library on structured "
+              "ill-scaled / singular matrix families; offline oracle = "
+              "residual of the documented linear relations, numpy lstsq, "
+              "metamorphic row-scaling and permutation twins",
+    text="n-port conversions, a/b to m reduction and error-term solves on "
+         "badly scaled, permuted, noisy over-determined and exactly singular "
+         "inputs: residuals of the defining linear relations must be at "
+         "rounding level after row equilibration, least-squares terms must "
+         "match numpy.linalg.lstsq, and singular inputs must be reported "
+         "(EDOM / non-finite result) rather than answered with plausible "
+         "numbers. Observed executions only.",
+    note="trusted: numpy/LAPACK; tolerances leave >= 3 decades over the worst "
+         "value seen on the repaired tree",
+    design_ref="DESIGN.md section 7, C19")
+
 NOT_YET = {}
 
 
